@@ -3,7 +3,7 @@ import KeepVerif.Model.C19Wire
 # C19 model: every `Unmarshal` of the anchored files followed by the type's own `Marshal`
 
 `unmarshal ty bytes : Option (Option Bytes)`
-* `none`            – the type is not modelled (driver prints `SKIP`; only the panic sweep applies)
+* `none`            – unknown type, or a needed library-parse result is missing from the oracle (`SKIP`)
 * `some none`       – `Unmarshal` returns an error
 * `some (some out)` – accepted; `out` = canonical re-marshal (deterministic map order)
 
@@ -19,11 +19,13 @@ namespace KeepVerif.C19
 inductive Kind where
   | u32 | u64 | bytes | str
   | i32   -- kept as the raw 64-bit varint value; the sign is interpreted by `post`
+  | rbytes -- repeated bytes / string-free repeated field: every occurrence, in order
   deriving DecidableEq, Repr
 
 inductive Val where
   | n (v : Nat)
   | b (bs : Bytes)
+  | l (xs : List Bytes)
   deriving DecidableEq, Repr
 
 structure FSpec where
@@ -37,6 +39,7 @@ def decField (fs : List Field) (s : FSpec) : Option Val :=
   | .u32 => some (.n (lastVarint fs s.num % 4294967296))
   | .u64 => some (.n (lastVarint fs s.num))
   | .i32 => some (.n (lastVarint fs s.num))
+  | .rbytes => some (.l (lens fs s.num))
   | .bytes => some (.b (lastLen fs s.num))
   | .str => if (lens fs s.num).all isUtf8 then some (.b (lastLen fs s.num)) else none
 
@@ -47,6 +50,7 @@ def encField (s : FSpec) (v : Val) : List Field :=
   match v with
   | .n v => if v = 0 then [] else [(s.num, .varint v)]
   | .b b => if b = [] then [] else [(s.num, .len b)]
+  | .l xs => xs.map fun b => (s.num, WVal.len b)
 
 def encFlat : List FSpec → List Val → List Field
   | s :: S, v :: vs => encField s v ++ encFlat S vs
@@ -54,7 +58,7 @@ def encFlat : List FSpec → List Val → List Field
 
 /-- numeric form of a schema, compared with the lists generated from the Go descriptors -/
 def Kind.code : Kind → Nat
-  | .u32 => 0 | .u64 => 1 | .bytes => 2 | .str => 3 | .i32 => 4
+  | .u32 => 0 | .u64 => 1 | .bytes => 2 | .str => 3 | .i32 => 4 | .rbytes => 12
 def schemaCode (S : List FSpec) : List Nat := S.flatMap fun s => [s.num, s.kind.code]
 
 /-- a flat message type: wire schema + keep-core's post-decoding validation / normalisation -/
@@ -206,22 +210,26 @@ def encMapBytes (num : Nat) (m : List (Nat × Bytes)) : List Field :=
   m.map fun (k, v) => (num, .len (putFields [(1, .varint k), (2, .len v)]))
 
 /-- sender / map of per-member payloads / session  (`mapNum`, `sessNum` vary) with an optional
-    broadcast payload at field 2 -/
-def mapMsg (bcast : Bool) (mapNum sessNum : Nat) (valOk : Bytes → Bool) (norm : Bytes → Bytes)
+    broadcast payload at field 2; `cv` validates and normalises one map value -/
+def mapMsg (bcast : Bool) (mapNum sessNum : Nat) (cv : Bytes → Option Bytes)
     (bs : Bytes) : Option Bytes := do
   let fs ← parseMsg bs
   let m ← mapBytes fs mapNum
   guard' (strOk fs sessNum)
   let s := lastVarint fs 1 % 4294967296
   guard' (idxOk s)
-  guard' (m.all fun (k, v) => idxOk k && valOk v)
+  guard' (m.all fun (k, _) => idxOk k)
+  let m' ← m.mapM fun (k, v) => (cv v).map fun v' => (k, v')
   pure (putFields (fU 1 s ++ (if bcast then fB 2 (lastLen fs 2) else []) ++
-    encMapBytes mapNum (m.map fun (k, v) => (k, norm v)) ++ fB sessNum (lastLen fs sessNum)))
+    encMapBytes mapNum m' ++ fB sessNum (lastLen fs sessNum)))
 
 /-- `ephemeral.UnmarshalPrivateKey(b).Marshal()`: big-endian integer left-padded to 32 bytes -/
 def privNorm (b : Bytes) : Bytes :=
   let s := stripZeros b
   List.replicate (32 - s.length) 0 ++ s
+
+/-- accused / misbehaved members' private keys: non-empty, normalised -/
+def privCv (v : Bytes) : Option Bytes := if v = [] then none else some (privNorm v)
 
 /-- gjkr `PeerShares`: map<uint32, Shares{bytes, bytes}> (a missing value is an empty message) -/
 def peerShares (bs : Bytes) : Option Bytes := do
@@ -268,14 +276,20 @@ def depositSweep (bs : Bytes) : Option Bytes := do
     keys.map (fun k => (1, WVal.len (putFields (fB 1 (lastLen k 1) ++ fU 2 (lastVarint k 2 % 4294967296))))) ++
     fB 2 (stripZeros (lastLen fs 2)) ++ packed 3 (blocks.map absInt64)))
 
-def redemption (bs : Bytes) : Option Bytes := do
-  let fs ← parseMsg bs
-  pure (putFields ((lens fs 1).map (fun s => (1, WVal.len s)) ++ fB 2 (stripZeros (lastLen fs 2))))
+def redemptionSpec : MsgSpec where
+  fields := [⟨1, .rbytes⟩, ⟨2, .bytes⟩]
+  post
+    | [.l scripts, .b fee] => some [.l scripts, .b (stripZeros fee)]
+    | _ => none
 
-def movingFunds (bs : Bytes) : Option Bytes := do
-  let fs ← parseMsg bs
-  guard' ((lens fs 1).all fun w => w.length == 20)
-  pure (putFields ((lens fs 1).map (fun s => (1, WVal.len s)) ++ fB 2 (stripZeros (lastLen fs 2))))
+def movingFundsSpec : MsgSpec where
+  fields := [⟨1, .rbytes⟩, ⟨2, .bytes⟩]
+  post
+    | [.l ws, .b fee] => if ws.all (fun w => w.length == 20) then some [.l ws, .b (stripZeros fee)] else none
+    | _ => none
+
+def redemption (bs : Bytes) : Option Bytes := redemptionSpec.unmarshal bs
+def movingFunds (bs : Bytes) : Option Bytes := movingFundsSpec.unmarshal bs
 
 /-- `unmarshalCoordinationProposal` + the proposal's `Marshal` -/
 def proposal (actionType : Nat) (payload : Bytes) : Option Bytes :=
@@ -376,17 +390,19 @@ def signer (bs : Bytes) : Option Bytes := do
   let w ← w                                    -- fix: missing wallet is an error
   guard' (strOk w 2)
   guard' (uncompressedOk (lastLen w 1))        -- fix: invalid public key is an error
+  guard' (idxOk (lastVarint fs 2 % 4294967296)) -- fix: index above 255 is an error (was truncated)
   let pks ← privateKeyShare (lastLen fs 3)
   pure (putFields (fM 1 (fB 1 (lastLen w 1) ++ rep 2 (lens w 2)) ++
-    fU 2 (lastVarint fs 2 % 4294967296 % 256) ++ fB 3 pks))
+    fU 2 (lastVarint fs 2 % 4294967296) ++ fB 3 pks))
 
 /-- outcome of the code before the repair: `none` = the Go code panics -/
 inductive Orig where
   | panic | err | ok (out : Bytes)
   deriving DecidableEq, Repr
 
-/-- `signer.Unmarshal` as it was: `pbSigner.Wallet.PublicKey` without a nil check, and an
-    unparsable key accepted with nil coordinates (its `Marshal` then panics). -/
+/-- `signer.Unmarshal` as it was: `pbSigner.Wallet.PublicKey` without a nil check, an
+    unparsable key accepted with nil coordinates (its `Marshal` then panics), and the member
+    index converted to `uint8` without a range check. -/
 def signerOrig (bs : Bytes) : Orig :=
   match parseMsg bs with
   | none => .err
@@ -416,20 +432,75 @@ def accusationsOrig (bs : Bytes) : Option Bytes :=
       let s := lastVarint fs 1 % 4294967296
       if !idxOk s then none else
       if m.all (fun (k, v) => idxOk k && decide (v ≠ [])) then
-        mapMsg false 2 3 (fun v => decide (v ≠ [])) privNorm bs
+        mapMsg false 2 3 privCv bs
       else some (putFields (fU 1 s))
+
+/-! ## types whose payloads are parsed by third-party libraries (parsing = oracle parameter) -/
+
+/-- results of the library parsers for the blobs of one input, as obtained from the real
+    libraries by the harness: (kind, blob, `some canonical re-encoding` | `none` = rejected).
+    Kinds (ASCII): 101 `e` btcec public key, 103 `g` bn256 G1, 104 `h` bn256 G2,
+    100 `d` decimal big integer string, 105 `i` libp2p public key. -/
+abbrev Oracle := List (Nat × Bytes × Option Bytes)
+
+/-- a blob that is not in the table is treated as rejected (`dflt = false`) or accepted
+    unchanged (`dflt = true`); the driver predicts only when both readings agree. -/
+def olook (o : Oracle) (dflt : Bool) (kind : Nat) (b : Bytes) : Option Bytes :=
+  match o.find? (fun e => e.1 == kind && e.2.1 == b) with
+  | some e => e.2.2
+  | none => if dflt then some b else none
+
+/-- sender / repeated curve points / session (`MemberCommitments`, `MemberPublicKeySharePoints`) -/
+def repMsg (cv : Bytes → Option Bytes) (bs : Bytes) : Option Bytes := do
+  let fs ← parseMsg bs
+  guard' (strOk fs 3)
+  let s := lastVarint fs 1 % 4294967296
+  guard' (idxOk s)
+  let xs ← (lens fs 2).mapM cv
+  pure (putFields (fU 1 s ++ rep 2 xs ++ fB 3 (lastLen fs 3)))
+
+/-- repaired `beacon/dkg.ThresholdSigner.Unmarshal` (member index and share keys ≤ 255) -/
+def thresholdSigner (cvH cvD : Bytes → Option Bytes) (bs : Bytes) : Option Bytes := do
+  let fs ← parseMsg bs
+  let m ← mapBytes fs 4
+  guard' (strOk fs 3 && strOk fs 5)
+  let s := lastVarint fs 1 % 4294967296
+  guard' (idxOk s)
+  let gpk ← cvH (lastLen fs 2)
+  let share ← cvD (lastLen fs 3)
+  guard' (m.all fun (k, _) => idxOk k)
+  let m' ← m.mapM fun (k, v) => (cvH v).map fun v' => (k, v')
+  pure (putFields (fU 1 s ++ fB 2 gpk ++ fB 3 share ++ encMapBytes 4 m' ++ rep 5 (lens fs 5)))
+
+/-- `ThresholdSigner.Unmarshal` as it was: indexes truncated to `uint8`, colliding share keys
+    (1 and 257) overwrite each other in map-iteration order. Only the member index is modelled. -/
+def thresholdSignerOrigIndex (bs : Bytes) : Option Nat :=
+  (parseMsg bs).map fun fs => lastVarint fs 1 % 4294967296 % 256
+
+def membership (cvH cvD : Bytes → Option Bytes) (bs : Bytes) : Option Bytes := do
+  let fs ← parseMsg bs
+  guard' (strOk fs 2)
+  let sg ← thresholdSigner cvH cvD (lastLen fs 1)
+  pure (putFields (fB 1 sg ++ fB 2 (lastLen fs 2)))
+
+def identity (cvI : Bytes → Option Bytes) (bs : Bytes) : Option Bytes := do
+  let fs ← parseMsg bs
+  let pk ← cvI (lastLen fs 1)
+  pure (putFields (fB 1 pk))
 
 /-! ## dispatch -/
 
-def unmarshal (ty : String) (bs : Bytes) : Option (Option Bytes) :=
+def unmarshalD (o : Oracle) (d : Bool) (ty : String) (bs : Bytes) : Option (Option Bytes) :=
   let simple := ["entry.SignatureShare", "tdkg.TSSRoundOne", "tdkg.TSSRoundThree",
     "tsign.TSSRoundThree", "tsign.TSSRoundFour", "tsign.TSSRoundFive", "tsign.TSSRoundSix",
     "tsign.TSSRoundSeven", "tsign.TSSRoundEight", "tsign.TSSRoundNine"]
   let hashSigs := ["result.DKGResultHashSignature", "inactivity.ClaimSignature", "tdkg.ResultSignature"]
   let accus := ["gjkr.SecretSharesAccusations", "gjkr.PointsAccusations", "gjkr.MisbehavedEphemeralKeys"]
+  let ephem := ["gjkr.EphemeralPublicKey", "tdkg.EphemeralPublicKey", "tsign.EphemeralPublicKey"]
   if simple.contains ty then some (simple3.unmarshal bs)
   else if hashSigs.contains ty then some (hashSig.unmarshal bs)
-  else if accus.contains ty then some (mapMsg false 2 3 (fun v => decide (v ≠ [])) privNorm bs)
+  else if accus.contains ty then some (mapMsg false 2 3 privCv bs)
+  else if ephem.contains ty then some (mapMsg false 2 3 (olook o d 101) bs)
   else match ty with
   | "tdkg.TSSFinalization" => some (finalization.unmarshal bs)
   | "announcer.Announcement" => some (announcement.unmarshal bs)
@@ -445,42 +516,62 @@ def unmarshal (ty : String) (bs : Bytes) : Option (Option Bytes) :=
   | "tbtc.MovingFunds" => some (movingFunds bs)
   | "tbtc.MovedFundsSweep" => some (movedFundsSweep.unmarshal bs)
   | "tbtc.Coordination" => some (coordination bs)
-  | "tdkg.TSSRoundTwo" => some (mapMsg true 3 4 (fun _ => true) id bs)
-  | "tsign.TSSRoundOne" => some (mapMsg true 3 4 (fun _ => true) id bs)
-  | "tsign.TSSRoundTwo" => some (mapMsg false 2 3 (fun _ => true) id bs)
+  | "tdkg.TSSRoundTwo" => some (mapMsg true 3 4 some bs)
+  | "tsign.TSSRoundOne" => some (mapMsg true 3 4 some bs)
+  | "tsign.TSSRoundTwo" => some (mapMsg false 2 3 some bs)
   | "gjkr.PeerShares" => some (peerShares bs)
   | "tdkg.PreParams" => some (preParams bs)
   | "tecdsa.PrivateKeyShare" => some (privateKeyShare bs)
   | "tbtc.Signer" => some (signer bs)
+  | "gjkr.MemberCommitments" => some (repMsg (olook o d 103) bs)
+  | "gjkr.MemberPublicKeySharePoints" => some (repMsg (olook o d 104) bs)
+  | "registry.ThresholdSigner" => some (thresholdSigner (olook o d 104) (olook o d 100) bs)
+  | "registry.Membership" => some (membership (olook o d 104) (olook o d 100) bs)
+  | "libp2p.Identity" => some (identity (olook o d 105) bs)
   | _ => none
 
-/-- the type names the harness knows but the model does not predict (panic sweep only) -/
-def sweepOnly : List String :=
-  ["gjkr.EphemeralPublicKey", "gjkr.MemberCommitments", "gjkr.MemberPublicKeySharePoints",
-   "registry.ThresholdSigner", "registry.Membership", "tdkg.EphemeralPublicKey",
-   "tsign.EphemeralPublicKey", "libp2p.Identity"]
+/-- prediction for one decoder call: `none` = unknown type, or a library-parsed blob of the
+    input is missing from the oracle and matters (the two default readings differ). -/
+def unmarshal (o : Oracle) (ty : String) (bs : Bytes) : Option (Option Bytes) :=
+  let r := unmarshalD o false ty bs
+  if r == unmarshalD o true ty bs then r else none
 
 /-! ## monitor -/
 
-/-- observation of the implementation -/
+/-- observation of the implementation; `idem` = the accepted value's own encoding, fed back to
+    `Unmarshal`, is accepted and re-marshals to the same bytes (checked by the harness on the real
+    code) -/
 inductive Obs where
-  | ok (out : Bytes) | err | other (s : String)
+  | ok (out : Bytes) (idem : Bool) | err | other (s : String)
   deriving DecidableEq, Repr
 
-/-- The property on one decoder call: never a panic/hang/unstable value; an accepted value is
-    the canonical form the specification assigns to the input (so nothing of the input is
-    silently dropped and every invariant holds); a canonical well-formed encoding is accepted
-    and reproduced. For sweep-only types only the first part applies. -/
-def holds (ty : String) (input : Bytes) (o : Obs) : Bool :=
+/-- **The property, stated without reference to the model**, on one decoder call:
+    * never a panic / hang (`other`);
+    * an accepted value is a fixpoint of Marshal ∘ Unmarshal (decoding what was encoded gives
+      back an equal value);
+    * on the round-trip stream (`wf`: the input is the `Marshal` of a well-formed value) the
+      input is accepted and re-marshals to exactly the input. -/
+def propHolds (wf : Bool) (input : Bytes) (o : Obs) : Bool :=
   match o with
   | .other _ => false
-  | .err =>
-    match unmarshal ty input with
-    | some (some out) => out != input      -- a canonical well-formed encoding must not be rejected
-    | _ => true
-  | .ok out =>
-    match unmarshal ty input with
-    | some r => r == some out
-    | none => true
+  | .err => !wf
+  | .ok out idem => idem && (!wf || out == input)
+
+/-- second clause, relative to the specification (the model): an accepted value is the canonical
+    form the specification assigns to the input — nothing of the input is silently dropped or
+    truncated, every invariant holds — and a canonical well-formed encoding is not rejected. -/
+def specHolds (o : Oracle) (ty : String) (input : Bytes) (obs : Obs) : Bool :=
+  match unmarshal o ty input with
+  | none => true
+  | some r =>
+    match obs with
+    | .other _ => false
+    | .err => (match r with
+      | some out => out != input
+      | none => true)
+    | .ok out _ => r == some out
+
+def holds (o : Oracle) (ty : String) (wf : Bool) (input : Bytes) (obs : Obs) : Bool :=
+  propHolds wf input obs && specHolds o ty input obs
 
 end KeepVerif.C19
